@@ -347,6 +347,12 @@ def long_inputs(r, cap):
         out.append(("LAYER " + " ".join(f"FEATURE POINTS {i} {i} END END" for i in range(n)) + " END", "flat:features", True))
         out.append(("SYMBOL POINTS " + " ".join(f"{i} {i}" for i in range(n)) + " END END", "flat:symbol-points", True))
         out.append(("CLASS # c\n" * 1 + " ".join(f'STYLE SIZE {i} END # s{i}\n' for i in range(n)) + " END", "flat:sibling-blocks-with-comments", True))
+    # values the parse loop looks at one by one (unquoted names after SYMBOL / FONT / DATA ...), hundreds of them inside one open block
+    for n in (300, 600):
+        out.append(("MAP\n" + "".join(f'LAYER NAME "l{i}" CLASS STYLE SYMBOL circle END END END\n' for i in range(n)) + "END", "flat:bare-symbol-names", True))
+        out.append(("MAP\n" + "".join(f'LAYER NAME l{i} DATA roads_{i} CLASS SYMBOL star LABEL FONT arial END END END\n' for i in range(n)) + "END",
+                    "flat:bare-word-values", True))
+        out.append(("MAP\n" + "".join(f"SYMBOL NAME sym{i} TYPE ellipse POINTS 1 1 END END\n" for i in range(n)) + "END", "flat:symbol-blocks", True))
     # the normalised form of such a chain, as dumps writes it: one more pair of parentheses per operand, nested to the left
     for n in ((100, 300) if "left-nested-expression-quadratic" in GATED else (100, 300, 1000, 3000)):
         s = "( [id] = 0 )"
